@@ -20,11 +20,26 @@ const imports = "From Coq Require Import List NArith.\nImport ListNotations.\nFr
 type runner struct {
 	o    hx.Opts
 	res  *hx.Result
+	slow map[string]int // per family: runs that ended in a watchdog timeout
 	core hx.CaseFile
 	rx   hx.CaseFile
 	muc  hx.CaseFile
 	ibb  hx.CaseFile
 }
+
+// maxSlow: after this many runs of one family ended in a watchdog timeout (a
+// stall of the real code, 10 s each) the remaining generated schedules of that
+// family are skipped: the failures are recorded, more of them add nothing.
+const maxSlow = 3
+
+func (x *runner) noteSlow(family string, failed bool, what string) {
+	if failed && (strings.Contains(what, "no arrival at any of") || strings.Contains(what, "could not be released")) {
+		x.slow[family]++
+		x.res.Extra["skipped_after_repeated_stalls"] = x.slow
+	}
+}
+
+func (x *runner) skip(family string) bool { return x.slow[family] >= maxSlow }
 
 // ---- generators for the core hand-off ----
 
@@ -100,6 +115,7 @@ func (x *runner) finishCore(run *coreRun, acts []action, class string) {
 		cls = append(cls, "core/saw-"+c)
 	}
 	nontrivial := run.classes["handoff"] || run.classes["ctxdone"] || run.classes["offerctx"] || run.classes["both-ctx"]
+	x.noteSlow("core", run.failed, run.failWhat)
 	x.res.Count(string(canon), nontrivial, cls...)
 	if run.failed {
 		x.res.Fail(run.failKey, run.failWhat, cc)
@@ -111,6 +127,9 @@ func (x *runner) finishCore(run *coreRun, acts []action, class string) {
 }
 
 func (x *runner) coreWalk(r *hx.Rand, maxCalls, steps int) {
+	if x.skip("core") {
+		return
+	}
 	run, err := newCoreRun()
 	if err != nil {
 		x.res.Fail("C06/harness/setup", err.Error(), nil)
@@ -178,6 +197,9 @@ func (x *runner) coreWalk(r *hx.Rand, maxCalls, steps int) {
 }
 
 func (x *runner) coreReplay(acts []action, class string) {
+	if x.skip("core") && class != "replay" {
+		return
+	}
 	run, err := newCoreRun()
 	if err != nil {
 		x.res.Fail("C06/harness/setup", err.Error(), nil)
@@ -201,7 +223,7 @@ func (x *runner) coreReplay(acts []action, class string) {
 func (x *runner) coreEnumerate(r *hx.Rand, cfgs []reqCfg, sts []peerSt, cancels bool, budget *int) {
 	var rec func(prefix []action)
 	rec = func(prefix []action) {
-		if *budget <= 0 {
+		if *budget <= 0 || x.skip("core") {
 			return
 		}
 		run, err := newCoreRun()
@@ -305,7 +327,7 @@ func main() {
 	o := hx.ParseFlags()
 	superviseRaces(o.Out)
 	res := hx.NewResult("C06")
-	x := &runner{o: o, res: res}
+	x := &runner{o: o, res: res, slow: map[string]int{}}
 	x.core = hx.CaseFile{Name: "core", Imports: imports, Ok: "case_ok", Type: "tcase"}
 	x.rx = hx.CaseFile{Name: "rx", Imports: importsExt, Ok: "rx_case_ok", Type: "rxcase"}
 	x.muc = hx.CaseFile{Name: "muc", Imports: importsExt, Ok: "muc_case_ok", Type: "muccase"}
